@@ -609,7 +609,7 @@ def tlc_explore(tier, seed, v):
         v.add_coverage(states=res0.distinct, transitions=res0.generated)
         cfg3 = _acts_cfg(tmp, "explore3.cfg", ["pheno", "mox2", "linear"], 3, ALL_ACTS, INVS + ["EmitCase"])
         res = core.run_tlc(SPEC / "Preserve.tla", cfg3, workers=8, timeout=1500, coverage=False)
-        sim = core.run_tlc(SPEC / "Preserve.tla", cfg, workers=4, timeout=1500, coverage=False, simulate="num=400", depth=6, seed=seed)
+        sim = core.run_tlc(SPEC / "Preserve.tla", cfg, workers=4, timeout=1500, coverage=False, simulate="num=2500", depth=6, seed=seed)
         core.require_ok(sim, "Preserve.tla simulate")
         res.prints += sim.prints
     shutil.rmtree(tmp, ignore_errors=True)
